@@ -130,6 +130,11 @@ func recoverFunc(runInfo *runInfoStruct) {
 			// an error of this run, never a signal for one of its loops or functions
 			value = errors.New(value.Error())
 		}
+		if value == ErrInterrupt && !runInfo.interrupted() {
+			// the interruption of another run (its context, not this run's, was cancelled):
+			// an ordinary error here, which a try can catch
+			value = errors.New(value.Error())
+		}
 		runInfo.err = value
 	default:
 		runInfo.err = fmt.Errorf("%v", recoverInterface)
